@@ -34,13 +34,17 @@ class LostAnchor(Exception):
 class SrcFile:
     cache = {}
 
-    def __init__(self, rel):
+    def __init__(self, rel, text=None, line_base=0):
         self.rel = rel
+        self.line_base = line_base
         self.path = os.path.join(REPO, rel)
-        try:
-            self.src = open(self.path).read()
-        except OSError as e:
-            raise LostAnchor(f'cannot read {rel}: {e}')
+        if text is not None:
+            self.src = text
+        else:
+            try:
+                self.src = open(self.path).read()
+            except OSError as e:
+                raise LostAnchor(f'cannot read {rel}: {e}')
         try:
             self.toks = lex(self.src)
             self.items = parse_items(self.toks, 0, len(self.toks))
@@ -216,14 +220,35 @@ class FnInfo:
             if is_p(t, ';'):
                 pos = j + 1
             j += 1
-        # skip loop statements following the last `;`
-        changed = True
-        while changed:
-            changed = False
-            for lp in self.loops:
-                if lp['start'] == pos:
-                    pos = lp['close'] + 1
-                    changed = True
+        # skip block-like statements (if/match/loops/blocks without `;`) that are followed by more code
+        while pos < end:
+            t = toks[pos]
+            q = pos
+            if t.kind == 'life' and is_p(toks[pos + 1], ':'):
+                q = pos + 2
+                t = toks[q]
+            if not ((t.kind == 'id' and t.text in ('if', 'match', 'loop', 'while', 'for', 'unsafe')) or is_p(t, '{')):
+                break
+            # find the end of this block-like expression
+            k = q
+            while True:
+                while k < end and not is_p(toks[k], '{'):
+                    if toks[k].kind == 'punct' and toks[k].text in ('(', '['):
+                        k = match_close(toks, k)
+                    k += 1
+                if k >= end:
+                    break
+                k = match_close(toks, k)
+                if k + 1 < end and is_id(toks[k + 1], 'else'):
+                    k = k + 2
+                    continue
+                break
+            if k >= end or k + 1 >= end:
+                break           # it is the tail expression itself
+            nxt = toks[k + 1]
+            if is_p(nxt, '.') or is_p(nxt, '?'):
+                break           # method chain on the block: part of the tail expression
+            pos = k + 1
         if pos >= end:
             return self.off(end)
         return self.off(pos)
@@ -442,7 +467,7 @@ def ret_edit(sf, item, name):
     return [(toks[a].start, toks[a].start, f'({name}: ', 'R-RET'), (toks[b - 1].end, toks[b - 1].end, ')', 'R-RET')]
 
 
-def apply_edits(src, start, end, edits, out, rel, mark=None):
+def apply_edits(src, start, end, edits, out, rel, mark=None, line_base=0):
     """Emit src[start:end] with edits applied. edits: (s, e, text, origin) ; origin is a rule name
     (replacement of repo text) or ('unit', path, line0) for inserted contract text."""
     edits = sorted(enumerate(edits), key=lambda p: (p[1][0], p[0]))
@@ -454,16 +479,16 @@ def apply_edits(src, start, end, edits, out, rel, mark=None):
             else:
                 raise LostAnchor(f'overlapping rewrite edits in {rel} at offset {s} ({org})')
         if s > pos:
-            base = line_of(src, pos)
+            base = line_of(src, pos) + line_base
             out.add(src[pos:s], lambda k, base=base: ('repo', rel, base + k))
         if isinstance(org, tuple):
             out.add(text, lambda k, org=org: (org[0], org[1], org[2] + k))
         else:
-            base = line_of(src, s)
+            base = line_of(src, s) + line_base
             out.add(text, lambda k, base=base: ('repo', rel, base))
         pos = max(pos, e)
     if pos < end:
-        base = line_of(src, pos)
+        base = line_of(src, pos) + line_base
         out.add(src[pos:end], lambda k, base=base: ('repo', rel, base + k))
 
 
@@ -491,7 +516,7 @@ def find_stmt_start(toks, i, lo):
     return lo + 1
 
 
-def rw_boolop(fi, args):
+def rw_boolop(fi, args, spec=None):
     """R-BOOLOP:  X |= E;  ->  { let __t = E; X = X || __t; }   (&= likewise). args: place names."""
     toks = fi.toks
     edits = []
@@ -521,7 +546,7 @@ def rw_boolop(fi, args):
     return edits
 
 
-def rw_for_range(fi, args):
+def rw_for_range(fi, args, spec=None):
     """R-FOR: `for P in A..B {` -> while loop with the increment first (so `continue` keeps its meaning).
     args: loop ordinals."""
     toks = fi.toks
@@ -557,7 +582,7 @@ def rw_for_range(fi, args):
     return edits
 
 
-def rw_hoist(fi, args):
+def rw_hoist(fi, args, spec=None):
     """R-HOIST: `for P in A..B {` / `A..=B`  ->  `let __s = A; for P in __s..B {`.
     Verus re-evaluates a pure range-start expression in its automatic for-loop invariant; when the
     body mutates what A reads (e.g. `self.parents.len()`), that invariant is unprovable. The range
@@ -589,7 +614,7 @@ def rw_hoist(fi, args):
     return edits
 
 
-def rw_letchain(fi, args):
+def rw_letchain(fi, args, spec=None):
     """R-LETCHAIN: `if let P = E && C { B }` (no else)  ->  `if let P = E { if C { B } }`."""
     toks = fi.toks
     edits = []
@@ -618,7 +643,7 @@ def rw_letchain(fi, args):
     return edits
 
 
-def rw_iter(fi, args):
+def rw_iter(fi, args, spec=None):
     """R-ITER: `for P in E {` -> `for P in __itK: E {` : names Verus's ghost iterator of loop K so that
     invariants can mention its position. Purely an annotation (erased with the other ghost code)."""
     toks = fi.toks
@@ -634,7 +659,7 @@ def rw_iter(fi, args):
     return edits
 
 
-def rw_cuttail(fi, args):
+def rw_cuttail(fi, args, spec=None):
     """R-CUTTAIL J: drop everything after the top-level statement of the body that contains `return J`
     and put `vc_unreachable()` (requires false) there: the remainder is NOT verified and must be
     shown unreachable from the contracts."""
@@ -668,7 +693,192 @@ def rw_cuttail(fi, args):
     return [(toks[stmt_end].end, toks[it.body_close].start, '\n        vc_unreachable()\n    ', 'R-CUTTAIL')]
 
 
+def _split_args(toks, lo, hi):
+    """split toks[lo:hi] at top-level commas; returns list of (a, b) token index ranges"""
+    out = []
+    a = lo
+    j = lo
+    depth = 0
+    while j < hi:
+        t = toks[j]
+        if t.kind == 'punct' and t.text in ('(', '[', '{'):
+            j = match_close(toks, j)
+        elif is_p(t, ',') :
+            out.append((a, j))
+            a = j + 1
+        j += 1
+    if a < hi:
+        out.append((a, hi))
+    return out
+
+
+def rw_assert(fi, args, spec=None):
+    """R-ASSERT: `assert!(C, msg..);` -> `if !(C) { vc_panic(); }` ; `assert_eq!(A, B, msg..);` ->
+    `if !((A) == (B)) { vc_panic(); }` ; `assert_ne!` likewise.  `vc_panic()` never returns (a panic is
+    divergence: partial correctness), so C is known afterwards exactly as in the real code."""
+    toks = fi.toks
+    src = fi.sf.src
+    edits = []
+    i = fi.item.body_open + 1
+    while i < fi.item.body_close:
+        t = toks[i]
+        if t.kind == 'id' and t.text in ('assert', 'assert_eq', 'assert_ne') and is_p(toks[i + 1], '!') and is_p(toks[i + 2], '('):
+            k = match_close(toks, i + 2)
+            parts = _split_args(toks, i + 3, k)
+            tx = lambda ab: src[toks[ab[0]].start:toks[ab[1] - 1].end]
+            if t.text == 'assert':
+                cond = f'({tx(parts[0])})'
+            elif t.text == 'assert_eq':
+                cond = f'(({tx(parts[0])}) == ({tx(parts[1])}))'
+            else:
+                cond = f'(({tx(parts[0])}) != ({tx(parts[1])}))'
+            end = k
+            edits.append((t.start, toks[end].end, f'if !{cond} {{ vc_panic(); }}', 'R-ASSERT'))
+            i = k
+        i += 1
+    if not edits:
+        raise LostAnchor(f'fn {fi.item.name}: R-ASSERT did not fire')
+    return edits
+
+
+def rw_then(fi, args, spec=None):
+    """R-THEN: `B.then(|| E)` -> `if B { Some(E) } else { None }` (B is the postfix chain before .then)"""
+    toks = fi.toks
+    src = fi.sf.src
+    edits = []
+    i = fi.item.body_open + 1
+    while i < fi.item.body_close:
+        if is_p(toks[i], '.') and is_id(toks[i + 1], 'then') and is_p(toks[i + 2], '(') and is_p(toks[i + 3], '|') and is_p(toks[i + 4], '|'):
+            k = match_close(toks, i + 2)
+            # receiver: scan back over ident / . / () / [] chain
+            j = i - 1
+            while True:
+                t = toks[j]
+                if t.kind == 'punct' and t.text in (')', ']'):
+                    # find matching open
+                    depth = 0
+                    while True:
+                        if toks[j].kind == 'punct' and toks[j].text in (')', ']'):
+                            depth += 1
+                        elif toks[j].kind == 'punct' and toks[j].text in ('(', '['):
+                            depth -= 1
+                            if depth == 0:
+                                break
+                        j -= 1
+                    j -= 1
+                    continue
+                if t.kind == 'id' and (is_p(toks[j - 1], '.')):
+                    j -= 2
+                    continue
+                if t.kind == 'id':
+                    break
+                raise LostAnchor(f'fn {fi.item.name}: R-THEN cannot delimit the receiver')
+            edits.append((toks[j].start, toks[j].start, 'if ', 'R-THEN'))
+            edits.append((toks[i].start, toks[i + 4].end, ' { Some(', 'R-THEN'))
+            edits.append((toks[k].start, toks[k].end, ') } else { None }', 'R-THEN'))
+            i = k
+        i += 1
+    if not edits:
+        raise LostAnchor(f'fn {fi.item.name}: R-THEN did not fire')
+    return edits
+
+
+def rw_unwrap_or_else(fi, args, spec=None):
+    """R-UNWRAPORELSE: `E.unwrap_or_else(|| BLOCK)` -> `match E { Some(__v) => __v, None => BLOCK }`
+    (E = the postfix chain before .unwrap_or_else, starting at the beginning of the statement/expression)."""
+    toks = fi.toks
+    src = fi.sf.src
+    edits = []
+    i = fi.item.body_open + 1
+    while i < fi.item.body_close:
+        if is_p(toks[i], '.') and is_id(toks[i + 1], 'unwrap_or_else') and is_p(toks[i + 2], '(') and is_p(toks[i + 3], '|') and is_p(toks[i + 4], '|'):
+            k = match_close(toks, i + 2)
+            s0 = find_stmt_start(toks, i, fi.item.body_open)
+            edits.append((toks[s0].start, toks[s0].start, 'match ', 'R-UNWRAPORELSE'))
+            edits.append((toks[i].start, toks[i + 4].end, ' { Some(__v) => __v, None => ', 'R-UNWRAPORELSE'))
+            edits.append((toks[k].start, toks[k].end, ' }', 'R-UNWRAPORELSE'))
+            i = k
+        i += 1
+    if not edits:
+        raise LostAnchor(f'fn {fi.item.name}: R-UNWRAPORELSE did not fire')
+    return edits
+
+
+def rw_mapcollect(fi, args, spec=None):
+    """R-MAPCOLLECT: `X.iter().map(|a| E).collect::<Vec<_>>()` -> index loop pushing E for every element
+    of X in order. The loop's invariant comes from the unit (`at mapcollect K spec`)."""
+    toks = fi.toks
+    src = fi.sf.src
+    edits = []
+    i = fi.item.body_open + 1
+    n = 0
+    while i < fi.item.body_close:
+        if is_p(toks[i], '.') and is_id(toks[i + 1], 'iter') and is_p(toks[i + 2], '(') and is_p(toks[i + 3], ')') \
+                and is_p(toks[i + 4], '.') and is_id(toks[i + 5], 'map') and is_p(toks[i + 6], '(') and is_p(toks[i + 7], '|'):
+            k = match_close(toks, i + 6)
+            # closure param: single identifier
+            if not (toks[i + 8].kind == 'id' and is_p(toks[i + 9], '|')):
+                raise LostAnchor(f'fn {fi.item.name}: R-MAPCOLLECT needs a single-variable closure')
+            var = toks[i + 8].text
+            body = src[toks[i + 10].start:toks[k].start]
+            # after `)`: .collect::<Vec<_>>()
+            j = k + 1
+            if not (is_p(toks[j], '.') and is_id(toks[j + 1], 'collect')):
+                i += 1
+                continue
+            while not is_p(toks[j], '('):
+                j += 1
+            end = match_close(toks, j)
+            # receiver X: scan back ident chain
+            r = i - 1
+            while toks[r].kind == 'id' and is_p(toks[r - 1], '.'):
+                r -= 2
+            if toks[r].kind != 'id':
+                raise LostAnchor(f'fn {fi.item.name}: R-MAPCOLLECT cannot delimit the receiver')
+            inv = ''
+            bend = ''
+            bstart = ''
+            if spec is not None:
+                for anchor, text, org in spec.inserts:
+                    if anchor == f'mapcollect {n} spec':
+                        inv = text
+                    if anchor == f'mapcollect {n} body-end':
+                        bend = text
+                    if anchor == f'mapcollect {n} body-start':
+                        bstart = text
+            edits.append((toks[r].start, toks[r].start, f'{{ let __src{n} = ', 'R-MAPCOLLECT'))
+            edits.append((toks[i].start, toks[i + 9].end,
+                          f'; let mut __v{n} = Vec::new(); let mut __k{n}: usize = 0;\n#[verifier::loop_isolation(false)]\nwhile __k{n} < __src{n}.len()\n{inv}\n{{ let {var} = &__src{n}[__k{n}];\n{bstart}\nlet __e{n} = ', 'R-MAPCOLLECT'))
+            edits.append((toks[k].start, toks[end].end, f'; __v{n}.push(__e{n}); __k{n} += 1;\n{bend}\n}} __v{n} }}', 'R-MAPCOLLECT'))
+            n += 1
+            i = end
+        i += 1
+    if not edits:
+        raise LostAnchor(f'fn {fi.item.name}: R-MAPCOLLECT did not fire')
+    return edits
+
+
+def rw_rename(fi, args, spec=None):
+    """R-RENAME a b: rename every identifier token `a` of the function to `b` (needed when a variable is
+    called `old`, which is a keyword of the specification language)."""
+    a, b = args[0], args[1]
+    toks = fi.toks
+    edits = []
+    for i in range(fi.item.kw, fi.item.body_close):
+        t = toks[i]
+        if t.kind == 'id' and t.text == a and not is_p(toks[i - 1], '.'):
+            edits.append((t.start, t.end, b, 'R-RENAME'))
+    if not edits:
+        raise LostAnchor(f'fn {fi.item.name}: R-RENAME did not fire')
+    return edits
+
+
 REWRITES = {
+    'R-RENAME': rw_rename,
+    'R-ASSERT': rw_assert,
+    'R-THEN': rw_then,
+    'R-UNWRAPORELSE': rw_unwrap_or_else,
+    'R-MAPCOLLECT': rw_mapcollect,
     'R-CUTTAIL': rw_cuttail,
     'R-ITER': rw_iter,
     'R-LETCHAIN': rw_letchain,
@@ -725,9 +935,11 @@ def emit_fn(gen, sf, item, spec, canary=False, qual='', in_trait=False):
     for rule, args in spec.rewrites:
         if rule not in REWRITES:
             raise LostAnchor(f'unknown rewrite {rule}')
-        edits += REWRITES[rule](fi, args)
+        edits += REWRITES[rule](fi, args, spec)
     has_sig = False
     for anchor, text, org in spec.inserts:
+        if anchor.startswith('mapcollect '):
+            continue
         off = fi.anchor_offset(anchor)
         if anchor == 'sig':
             has_sig = True
@@ -751,19 +963,19 @@ def emit_fn(gen, sf, item, spec, canary=False, qual='', in_trait=False):
     start_line = gen.out.lineno()
     gen.out.nl()
     start_line = gen.out.lineno()
-    apply_edits(src, toks[item.first].start, toks[item.last].end, edits, gen.out, sf.rel)
+    apply_edits(src, toks[item.first].start, toks[item.last].end, edits, gen.out, sf.rel, line_base=sf.line_base)
     gen.out.nl()
     end_line = gen.out.lineno() - 1
     body = src[toks[item.first].start:toks[item.last].end]
     gen.functions.append(dict(
         name=('__canary_' if canary else '') + item.name, qual=qual, rel=sf.rel,
-        line=line_of(src, toks[item.kw].start), hash=hashlib.sha256(body.encode()).hexdigest()[:16],
+        line=line_of(src, toks[item.kw].start) + sf.line_base, hash=hashlib.sha256(body.encode()).hexdigest()[:16],
         gen_start=start_line, gen_end=end_line, canary=canary,
         contract=bool(spec.inserts), loops=len(fi.loops)))
     if not canary:
         for e in edits:
             if isinstance(e[3], str) and e[3] not in ('R-VIS', 'R-ATTR', 'R-CANARY'):
-                gen.rewrites.append((e[3], sf.rel, line_of(src, e[0])))
+                gen.rewrites.append((e[3], sf.rel, line_of(src, e[0]) + sf.line_base))
             if isinstance(e[3], str) and e[3] in ('R-VIS', 'R-ATTR', 'R-LOG'):
                 gen.dropped[e[3]] = gen.dropped.get(e[3], 0) + 1
         for anchor, text, org in spec.inserts:
@@ -816,8 +1028,30 @@ def project_edits(sf, item, keep):
     return edits, dropped
 
 
-def emit_item(gen, sf, item, only=None):
+def constcall_edits(sf, item):
+    """R-CONSTCALL: `const N: T = P::new_const(LIT);` -> `exec const N: T ensures N == P::spec_new_const(LIT) { P::new_const(LIT) }`
+    (Verus consts are dual-mode and may not call exec functions; the value is carried by the ensures)."""
+    toks = sf.toks
+    i = item.kw
+    name = toks[i + 1].text
+    j = i
+    while not is_p(toks[j], '='):
+        j += 1
+    expr = sf.src[toks[j + 1].start:toks[item.last].start].strip()
+    m = re.match(r'^([A-Za-z_][A-Za-z0-9_:]*)::new_const\((.*)\)$', expr)
+    if not m:
+        raise LostAnchor(f'{sf.rel}: const {name} is not of the form P::new_const(LIT)')
+    return [
+        (toks[i].start, toks[i].start, 'exec ', 'R-CONSTCALL'),
+        (toks[j].start, toks[item.last].end, f' ensures {name} == {m.group(1)}::spec_new_const({m.group(2)}) {{ {expr} }}', 'R-CONSTCALL'),
+    ]
+
+
+def emit_item(gen, sf, item, only=None, constcall=False):
     edits = strip_edits(sf, item.first, item.last) + pub_edits(sf, item)
+    if constcall:
+        edits += constcall_edits(sf, item)
+        gen.rewrites.append(('R-CONSTCALL', sf.rel, line_of(sf.src, sf.toks[item.kw].start)))
     if only is not None:
         pe, dropped = project_edits(sf, item, only)
         # remove strip/pub edits that fall inside dropped ranges
@@ -926,7 +1160,7 @@ def generate(unit_path, canaries=True):
             only = None
             if len(w) > 5 and w[4] == 'only':
                 only = [x for x in ' '.join(w[5:]).replace(',', ' ').split()]
-            emit_item(gen, sf, sf.find_item(w[2], w[3]), only=only)
+            emit_item(gen, sf, sf.find_item(w[2], w[3]), only=only, constcall=(len(w) > 4 and w[4] == 'constcall'))
             i += 1
         elif w[0] == 'impl':
             sf = SrcFile.get(w[1])
@@ -939,6 +1173,53 @@ def generate(unit_path, canaries=True):
             gen.out.nl()
             gen.out.add(hdr + '\n', lambda k, base=base, rel=sf.rel: ('repo', rel, base + k))
             i += 1
+        elif w[0] == 'lift':
+            # //@ lift <file> <fn name | Impl::fn> closure K as NAME ; then `//@ sigtext <text>` gives the header
+            sf = SrcFile.get(w[1])
+            target = w[2]
+            k = int(w[4])
+            name = w[6]
+            header_txt = None
+            j = i + 1
+            m3 = re.match(r'\s*//@\s*header\s+(.*)$', lines[j][0])
+            if not m3:
+                raise LostAnchor(f'{p}:{ln}: lift needs a following `//@ header fn NAME(...) -> T` line')
+            header_txt = m3.group(1).strip()
+            spec, i = parse_fn_block(j + 1, name, p, ln)
+            # find the enclosing fn (search all impls and free fns)
+            cands = []
+            for it in sf.all_mods():
+                if it.kind == 'fn' and it.name == target:
+                    cands.append(it)
+                if it.kind == 'impl' and it.body_open is not None:
+                    for it2 in sf.sub_items(it):
+                        if it2.kind == 'fn' and it2.name == target:
+                            cands.append(it2)
+            if len(cands) != 1:
+                raise LostAnchor(f'{sf.rel}: expected exactly one fn {target} for lift, found {len(cands)}')
+            fi0 = FnInfo(sf, cands[0])
+            if k >= len(fi0.closures):
+                raise LostAnchor(f'{sf.rel}: fn {target} has no closure {k}')
+            cl = fi0.closures[k]
+            b0 = cl['bar2'] + 1
+            if not is_p(sf.toks[b0], '{'):
+                raise LostAnchor(f'{sf.rel}: closure {k} of {target} has no block body')
+            b1 = match_close(sf.toks, b0)
+            body = sf.src[sf.toks[b0].start:sf.toks[b1].end]
+            params_txt = re.sub(r'\s+', ' ', sf.src[sf.toks[cl['bar1']].start:sf.toks[cl['bar2']].end])
+            text = header_txt + ' ' + body
+            lb = line_of(sf.src, sf.toks[b0].start) - 1
+            sf2 = SrcFile(sf.rel, text=text, line_base=lb)
+            try:
+                sf2.toks = lex(sf2.src)
+                sf2.items = parse_items(sf2.toks, 0, len(sf2.toks))
+            except (LexError, IndexError, AssertionError) as e:
+                raise LostAnchor(f'lift: cannot parse lifted closure: {e}')
+            item = sf2.items[0]
+            gen.rewrites.append((f'R-LIFT closure {k} of {target} (params `{params_txt}`) as {name}', sf.rel, lb + 1))
+            emit_fn(gen, sf2, item, spec, canary=False, qual='closure@' + target + '::')
+            if canaries and spec.canary:
+                emit_fn(gen, sf2, item, spec, canary=True, qual='closure@' + target + '::')
         elif w[0] == 'end-impl':
             gen.out.nl()
             gen.out.add('}\n', lambda k, p=p, ln=ln: ('unit', p, ln))
